@@ -23,13 +23,13 @@ let next_annot st =
   let idx = next_list st (fun st -> let k = next_str st in let v = next_str st in (k, v)) in
   { a_ver = ver; a_time = time; a_inputs = inputs; a_repos = repos; a_idx = idx }
 let next_opts st =
-  let multi = next_bool st in
+  let multi = next_opt st next_bool in
   let hashes = next_bool st in
   let urls = next_bool st in
   let annot = next_opt st next_annot in
   let index = next_list st next_str in
   let links = next_list st next_str in
-  { o_multi = multi; o_hashes = hashes; o_urls = urls; o_annot = annot; o_index = index; o_links = links }
+  { o_format = multi; o_hashes = hashes; o_urls = urls; o_annot = annot; o_index = index; o_links = links }
 
 let pl f l = String.concat " " (string_of_int (List.length l) :: List.map f l)
 let po f = function None -> "N" | Some x -> "S " ^ f x
@@ -59,7 +59,7 @@ let handle line =
   | "S" -> b2s (spec_ok (next_str st))
   | "X" -> b2s (extra_ok (next_str st))
   | "F" -> let o = next_opts st in let v = next_view st in
-    b2s (wf_multi o v) ^ " " ^ b2s (wf_single o v)
+    b2s (wf_multi o v) ^ " " ^ b2s (wf_single o v) ^ " " ^ b2s (wf_auto o v) ^ " " ^ b2s (o_multi o)
   | "K" -> let v = next_view st in print_view (canon v)
   | c -> failwith ("bad command " ^ c)
 
